@@ -254,47 +254,52 @@ class Ctx:
         return scn
 
     # ---- trace validation
-    def validate(self, trace_module, cfg_text, trace_path, label="", max_rejects=10, timeout=1200):
-        """Validates an ndjson trace (runs separated by reset events) against specs/<trace_module>.tla.
-        Every rejected run becomes a replay artefact and a VIOLATION (or KNOWN-FINDING)."""
+    def validate(self, trace_module, cfg_text, trace_path, label="", max_rejects=3, timeout=1200, header=0):
+        """Validates an ndjson trace (runs separated by reset events; the first `header` lines are a preamble every
+        run needs) against specs/<trace_module>.tla.  Every rejected run becomes a replay artefact and a VIOLATION
+        (or KNOWN-FINDING); validation continues with the runs after it."""
         lines = [l for l in open(trace_path).read().splitlines() if l.strip()]
-        total_runs = 1 + sum(1 for l in lines if '"ev":"reset"' in l)
+        head, body = lines[:header], lines[header:]
+        is_reset = lambda l: '"ev":"reset"' in l
+        total_runs = 1 + sum(1 for l in body if is_reset(l))
         start = 0
         rejects = 0
         accepted_runs = 0
-        while start < len(lines):
-            part = lines[start:]
+        while start < len(body):
+            part = body[start:]
             ppath = trace_path if start == 0 else trace_path + ".part%d" % start
             if start:
                 with open(ppath, "w") as f:
-                    f.write("\n".join(part) + "\n")
+                    f.write("\n".join(head + part) + "\n")
             ok, d, out = run_trace_tlc(trace_module, cfg_text, ppath, timeout)
             if start:
                 os.unlink(ppath)
             if ok:
-                accepted_runs += 1 + sum(1 for l in part if '"ev":"reset"' in l)
+                accepted_runs += 1 + sum(1 for l in part if is_reset(l))
                 self.transitions += len(part)
                 break
-            # rejected at line d (1-based) of part: Rec[d] is the first unmatched event
+            # rejected at line d (1-based) of the file: the first unmatched event
+            if d is not None:
+                d -= header
             if d is None or d < 1 or d > len(part):
                 sys.stdout.write(out[-3000:])
-                raise ToolError("trace validation of %s failed without a rejection point" % trace_path)
+                raise ToolError("trace validation of %s failed without a rejection point (d=%r)" % (trace_path, d))
             lo = d - 1
-            while lo > 0 and '"ev":"reset"' not in part[lo - 1]:
+            while lo > 0 and not is_reset(part[lo - 1]):
                 lo -= 1
             hi = d - 1
-            while hi < len(part) and '"ev":"reset"' not in part[hi]:
+            while hi < len(part) and not is_reset(part[hi]):
                 hi += 1
-            accepted_runs += sum(1 for l in part[:lo] if '"ev":"reset"' in l)
+            accepted_runs += sum(1 for l in part[:lo] if is_reset(l))
             self.transitions += lo
             run = part[lo:hi]
             rejects += 1
             rp = os.path.join(REPLAYS, "%s-%s-%d-%d.ndjson" % (self.pid, label or "trace", self.seed, self.violations + self.known_hits))
             with open(rp, "w") as f:
-                f.write("\n".join(run) + "\n")
-            last_state = last_matched_state(trace_module, cfg_text, rp, d - lo, timeout)
+                f.write("\n".join(head + run) + "\n")
+            last_state = last_matched_state(trace_module, cfg_text, rp, header + d - lo, timeout)
             with open(rp + ".diag.txt", "w") as f:
-                f.write("first unmatched event (line %d of the run): %s\n\nlast matched state:\n%s\n" % (d - lo, part[d - 1], last_state))
+                f.write("first unmatched event (line %d of the replay file): %s\n\nlast matched state:\n%s\n" % (header + d - lo, part[d - 1], last_state))
             what = "trace rejected by %s at event %d of run: %s" % (trace_module, d - lo, part[d - 1])
             self.violation(what, replay_path=rp)
             start = start + hi + 1
